@@ -29,3 +29,12 @@ Proof.
   intros fuel g tb H. unfold lr_validate in H.
   destruct (infer_annotation fuel tb) as [ann|]; [|discriminate]. exists ann. exact H.
 Qed.
+
+(* ---------------------------------------------------------------- ambiguity witnesses: a grammar with a checked witness is
+   ambiguous, hence not LALR(1); a table for it without any reported conflict violates (i) *)
+From Parol Require Import Grammar.Ambig.
+
+Theorem C04_ambig_check_sound :
+  forall (g : cfg) (t1 t2 : tree), ambig_check g t1 t2 = true -> ambiguous g.
+Proof. exact ambig_check_sound. Qed.
+
